@@ -5,6 +5,7 @@ import (
 	"verif/harness/internal/chaingen"
 	"verif/harness/internal/mgrsim"
 	"verif/harness/internal/rng"
+	"verif/harness/internal/storeobs"
 )
 
 // Hand-built scenarios around the expiration lists. Each has a trunk
@@ -180,9 +181,49 @@ func buildCross(r *rng.R, env *chaingen.Env) scenario {
 	return scenario{t: s.T, plan: plan}
 }
 
+// checkpointNet is the network of the "checkpoint-revert" scenario.
+var checkpointNet = storeobs.NetParams{Allow: 1, Require: 3, FinalCut: 3}
+
+// buildCheckpointRevert: a store opened at a checkpoint block X at require height + 1 that
+// spends siacoin and siafund elements; a heavier sibling branch Y makes the node revert its own
+// checkpoint block (revertElements runs on buckets that never held X's inputs), then X's
+// branch grows past Y again. Returns the scenario and X's tree index.
+func buildCheckpointRevert(r *rng.R, env *chaingen.Env) (scenario, int) {
+	s := chaingen.NewScript(r, env)
+	req := env.Net.HardforkV2.RequireHeight
+	fill := func(b *chaingen.Builder) {
+		for _, k := range []string{"v2-transfer", "v2-siafund", "v2-transfer"} {
+			b.AddTx(r, k)
+		}
+	}
+	n := s.T.Nodes[0]
+	for n.Height < req {
+		n = s.Extend(n, fill)
+	}
+	idx := func(ns ...*chaingen.Node) (out []int) {
+		for _, n := range ns {
+			out = append(out, n.Idx)
+		}
+		return
+	}
+	x := s.Extend(n, fill)
+	x2 := s.Extend(x, fill)
+	y := s.Extend(n, fill)
+	y2 := s.Extend(y, fill)
+	y3 := s.Extend(y2, fill)
+	x3 := s.Extend(x2, fill)
+	x4 := s.Extend(x3, fill)
+	plan := []mgrsim.Op{{Kind: "add", Nodes: idx(x2)}, {Kind: "add", Nodes: idx(y, y2, y3)}, {Kind: "add", Nodes: idx(x2, x3, x4)}}
+	return scenario{t: s.T, plan: plan}, x.Idx
+}
+
 func directed(r *rng.R, env *chaingen.Env, name string) *chaingen.Tree {
 	if name == "cross-require" {
 		return buildCross(r, env).t
+	}
+	if name == "checkpoint-revert" {
+		sc, _ := buildCheckpointRevert(r, env)
+		return sc.t
 	}
 	return buildDirected(r, env, name).t
 }
@@ -197,6 +238,20 @@ func directedCases() []Case {
 			r := rng.New(cs.Seed)
 			env := chaingen.NewEnv(r, regime)
 			cs.Plan = buildCross(r, env).plan
+		}()
+		out = append(out, cs)
+	}
+	for i := 0; i < 4; i++ {
+		net := checkpointNet
+		cs := Case{Seed: uint64(7000 + i), Regime: []int{1, 4}[i%2], Directed: "checkpoint-revert", Net: &net}
+		func() {
+			defer func() { recover() }()
+			r := rng.New(cs.Seed)
+			env := chaingen.NewEnv(r, cs.Regime)
+			cs.Net.Apply(env)
+			var sc scenario
+			sc, cs.Checkpoint = buildCheckpointRevert(r, env)
+			cs.Plan = sc.plan
 		}()
 		out = append(out, cs)
 	}
